@@ -54,7 +54,20 @@ def main():
   for i in range(0, len(vals), B):
     batch = [(name, (float(rnd.randrange(0, 2 ** 32)) + rnd.random(), v)) for v in vals[i:i + B]]
     del lines[:]
-    client._sendDatapointsNow(batch)
+    try:
+      client._sendDatapointsNow(batch)
+    except Exception as e:
+      # the client raised on a batch: find the datapoint (everything after it in the message is lost)
+      bad = None
+      for dp in batch:
+        try:
+          client._sendDatapointsNow([dp])
+        except Exception:
+          bad = dp
+          break
+      if not any(f['id'] == 'c15-line-send-raises' for f in failures):
+        failures.append({'id': 'c15-line-send-raises', 'escaped': repr(e), 'datapoint': repr(bad), 'batch_size': len(batch)})
+      continue
     if len(lines) != len(batch) and len(failures) < 3:
       failures.append({'id': 'c15-line-count', 'sent': len(batch), 'lines': len(lines)})
       continue
@@ -91,7 +104,10 @@ def main():
   pr.peerName = 'p'
   pr.unpickler = P.get_unpickler(insecure=False)
   sample = [(name, (float(rnd.randrange(0, 2 ** 32)), v)) for v in vals[:3000] if isinstance(v, float) or abs(v) <= 2 ** 53]
-  pc._sendDatapointsNow(sample)
+  try:
+    pc._sendDatapointsNow(sample)
+  except Exception as e:
+    failures.append({'id': 'c15-pickle-send-raises', 'escaped': repr(e)})
   del got[:]
   for f in frames:
     pr.stringReceived(f)
@@ -104,4 +120,9 @@ def main():
 
 
 if __name__ == '__main__':
-  main()
+  import os as _os
+  sys_path_dir = _os.path.dirname(_os.path.abspath(__file__))
+  import sys as _sys
+  _sys.path.insert(0, sys_path_dir)
+  from _guard import run_guarded
+  run_guarded(main, _os.path.basename(__file__))
